@@ -27,6 +27,12 @@ Pats == <<
   [name |-> "slice chain", pre |-> <<>>, left |-> <<>>, core |-> <<a>>, right |-> <<T("lbracket"), T("colon"), T("colon"), <<"number", -1>>, T("rbracket")>>, post |-> <<>>],
   [name |-> "multi-select width", pre |-> <<T("lbracket")>>, left |-> <<>>, core |-> <<a>>, right |-> <<T("comma"), a>>, post |-> <<T("rbracket")>>],
   [name |-> "argument width", pre |-> <<<<"uid", <<110, 111, 116, 95, 110, 117, 108, 108>>>>, T("lparen")>>, left |-> <<>>, core |-> <<a>>, right |-> <<T("comma"), a>>, post |-> <<T("rparen")>>],
+  [name |-> "right-nested or", pre |-> <<>>, left |-> <<a, T("or"), T("lparen")>>, core |-> <<a>>, right |-> <<T("rparen")>>, post |-> <<>>],
+  [name |-> "right-nested and", pre |-> <<>>, left |-> <<a, T("and"), T("lparen")>>, core |-> <<a>>, right |-> <<T("rparen")>>, post |-> <<>>],
+  [name |-> "right-nested or of missing fields", pre |-> <<>>, left |-> <<<<"uid", <<122>>>>, T("or"), T("lparen")>>, core |-> <<<<"uid", <<122>>>>>>, right |-> <<T("rparen")>>, post |-> <<>>],
+  [name |-> "right-nested pipe", pre |-> <<>>, left |-> <<T("current"), T("pipe"), T("lparen")>>, core |-> <<a>>, right |-> <<T("rparen")>>, post |-> <<>>],
+  [name |-> "right-nested comparator", pre |-> <<>>, left |-> <<a, T("eq"), T("lparen")>>, core |-> <<a>>, right |-> <<T("rparen")>>, post |-> <<>>],
+  [name |-> "nested not-or", pre |-> <<>>, left |-> <<T("not"), T("lparen"), a, T("or")>>, core |-> <<a>>, right |-> <<T("rparen")>>, post |-> <<>>],
   [name |-> "unbalanced open", pre |-> <<>>, left |-> <<T("lparen")>>, core |-> <<a>>, right |-> <<>>, post |-> <<>>],
   [name |-> "unbalanced brackets", pre |-> <<>>, left |-> <<T("lbracket")>>, core |-> <<>>, right |-> <<>>, post |-> <<>>] >>
 RECURSIVE Rep(_, _)
